@@ -123,6 +123,9 @@ Section Glue.
     | Some (a, b) =>
       let c := ml_advance c s a b in
       let (ls, le) := locate (lt_byte (c_lt cfg)) s a b in
+      (* an empty line range (a match right after the final line terminator) belongs to no line:
+         it is never reported, so it gets no context either and the pending range stays *)
+      if Nat.leb le ls then MOK true {| ml_core := c; ml_last := ml_last m |} else
       match ml_last m with
       | None => MOK true {| ml_core := c; ml_last := Some (ls, le) |}
       | Some (pls, ple) =>
